@@ -205,6 +205,12 @@ func c10Sequences(rng *rand.Rand, n int) [][]wsMsg {
 					if p%8 == 7 {
 						typ = websocket.PongMessage
 					}
+					if p%5 == 4 {
+						// ... and frames the server cannot process at all
+						junk := []string{`{garbage`, `{"jsonrpc":"2.0","id":{"a":1},"method":"S.Echo","params":["Tqx1",""]}`, `{"jsonrpc":"2.0","id":[1],"method":"S.Echo","params":["Tqx1",""]}`, `[1,2`, `{"jsonrpc":"2.0","id":true,"method":"S.Nope"}`}[(p/5+j)%5]
+						seq = append(seq, wsMsg{websocket.TextMessage, []byte(junk)})
+						continue
+					}
 					seq = append(seq, wsMsg{typ, []byte(fmt.Sprintf("p%d", p))})
 				}
 			}
